@@ -41,6 +41,49 @@ func (c Ctx) bind(name string, v []*val.V) Ctx {
 // Machine evaluates expressions; Steps bounds runaway evaluation.
 type Machine struct {
 	Steps int
+	// Together holds the documents that are evaluated together (eval-all): a binary operator, `as` and `[...]` whose
+	// context consists of such documents only work on the whole context at once instead of node by node.
+	Together map[*val.V]bool
+}
+
+// groups splits a context the way those three operators see it.
+func (m *Machine) groups(in []*val.V) [][]*val.V {
+	all := len(in) > 0 && len(m.Together) > 0
+	for _, n := range in {
+		if !m.Together[n] {
+			all = false
+		}
+	}
+	if all {
+		return [][]*val.V{in}
+	}
+	var out [][]*val.V
+	for _, n := range in {
+		out = append(out, []*val.V{n})
+	}
+	return out
+}
+
+// RunTogether evaluates e on documents that are evaluated together (eval-all).
+func RunTogether(e *E, in []*val.V) (out Outcome) {
+	m := &Machine{Together: map[*val.V]bool{}}
+	for _, n := range in {
+		m.Together[n] = true
+	}
+	defer func() {
+		if r := recover(); r != nil {
+			switch x := r.(type) {
+			case errDefined:
+				out = Outcome{Err: x.msg}
+			case undefined:
+				out = Outcome{Undef: x.why}
+			default:
+				panic(r)
+			}
+		}
+	}()
+	res := m.ev(e, in, Ctx{})
+	return Outcome{Results: res}
 }
 
 // Run evaluates e on the input stream (values are mutated in place where the semantics says so).
@@ -114,6 +157,14 @@ func (m *Machine) ev(e *E, in []*val.V, c Ctx) []*val.V {
 		if e.V.K == val.Map && len(e.V.Vals) == 0 && len(in) != 1 {
 			undef("{} on a stream whose length is not 1") // 7a: lexes to `empty | collect_object`
 		}
+		if e.V.K == val.Seq && len(e.V.Vals) == 0 {
+			// `[]` is the collect operator without an operand: one empty array per group of the context
+			var out []*val.V
+			for range m.groups(in) {
+				out = append(out, val.SeqV())
+			}
+			return out
+		}
 		out := make([]*val.V, len(in))
 		for i := range in {
 			out[i] = e.V.Copy()
@@ -159,10 +210,19 @@ func (m *Machine) ev(e *E, in []*val.V, c Ctx) []*val.V {
 			return []*val.V{val.SeqV()}
 		}
 		var out []*val.V
-		for _, n := range in {
+		for _, one := range m.groups(in) {
 			s := val.SeqV()
-			for _, r := range m.ev(e.A[0], []*val.V{n}, c) {
-				s.Vals = append(s.Vals, r.Copy())
+			if len(one) > 1 || m.Together[one[0]] {
+				// documents evaluated together: one array for all of them, each document read on its own and read-only
+				for _, n := range one {
+					for _, r := range m.ev(e.A[0], []*val.V{n}, c.ro()) {
+						s.Vals = append(s.Vals, r.Copy())
+					}
+				}
+			} else {
+				for _, r := range m.ev(e.A[0], one, c) {
+					s.Vals = append(s.Vals, r.Copy())
+				}
 			}
 			out = append(out, s)
 		}
@@ -170,15 +230,19 @@ func (m *Machine) ev(e *E, in []*val.V, c Ctx) []*val.V {
 	case "objk", "obje":
 		return m.object(e, in, c)
 	case "as":
+		if len(in) == 0 {
+			// nothing to bind: the body is evaluated on the empty stream (only `[...]` produces something there)
+			return m.ev(e.A[1], in, c)
+		}
 		var out []*val.V
-		for _, n := range in {
-			src := m.ev(e.A[0], []*val.V{n}, c.ro())
+		for _, one := range m.groups(in) {
+			src := m.ev(e.A[0], one, c.ro())
 			if len(src) == 0 {
-				out = append(out, m.ev(e.A[1], []*val.V{n}, c)...)
+				out = append(out, m.ev(e.A[1], one, c)...)
 				continue
 			}
 			for _, v := range src {
-				out = append(out, m.ev(e.A[1], []*val.V{n}, c.bind(e.S, []*val.V{v.Copy()}))...)
+				out = append(out, m.ev(e.A[1], one, c.bind(e.S, []*val.V{v.Copy()}))...)
 			}
 		}
 		return out
@@ -821,9 +885,11 @@ func (m *Machine) binary(e *E, in []*val.V, c Ctx) []*val.V {
 	} else {
 		rhsE = e.A[1]
 	}
+	if len(in) == 0 {
+		undef("binary operator on an empty stream") // 7a: the documentation is silent (yq computes `nothing op nothing` for some operators)
+	}
 	var out []*val.V
-	for _, n := range in {
-		one := []*val.V{n}
+	for _, one := range m.groups(in) {
 		L := m.ev(lhsE, one, oc)
 		forRHS := func(l *val.V) {
 			// short-circuit on the left value alone
